@@ -138,6 +138,35 @@ def check_pop(bag, costs, rng, n_values=None):
             viol("helpers", "caller-list-mutated", "the caller's list changed after best/worst_agent")
 
 
+def check_none_direction(bag, costs, rng):
+    """task_type=None is accepted by every signature (`TaskType | None`).  The property does not say which direction None
+    requests, so only the direction-independent law is judged: the `_indexes` variants designate agents with the same costs
+    as the agent-returning variants called with the same arguments."""
+    size = len(costs)
+    pop = mk_pop(costs)
+
+    def viol(fn, detail):
+        if len(bag["viol"]) < 40:
+            bag["viol"].append({"key": {"component": fn, "law": "same-costs"}, "detail": f"costs={costs} dir=None: {detail}",
+                                "costs": [repr(c) for c in costs]})
+    bag["n"] += 1
+    try:
+        s, si = H.sort_by_cost(pop, None), H.sort_by_cost_indexes(pop, None)
+        if [a.cost for a in s] != [costs[i] for i in si]:
+            viol("sort_by_cost_indexes", f"sort_by_cost -> {[a.cost for a in s]}, indexes {si} -> {[costs[i] for i in si]}")
+        for n in sorted({0, 1, size, rng.randint(0, size)}):
+            r, ri = H.best_agents(pop, n, None), H.best_agents_indexes(pop, n, None)
+            if [a.cost for a in r] != [costs[i] for i in ri]:
+                viol("best_agents_indexes", f"n={n}: agents {[a.cost for a in r]}, indexes {ri} -> {[costs[i] for i in ri]}")
+            w, wi = H.worst_agents(pop, n, None), H.worst_agents_indexes(pop, n, None)
+            if [a.cost for a in w] != [costs[i] for i in wi]:
+                viol("worst_agents_indexes", f"n={n}: agents {[a.cost for a in w]}, indexes {wi} -> {[costs[i] for i in wi]}")
+        if H.best_agent(pop, None).cost != costs[H.best_agent_index(pop, None)] or H.worst_agent(pop, None).cost != costs[H.worst_agent_index(pop, None)]:
+            viol("best_agent_index", "best_agent / worst_agent and their _index variants disagree")
+    except Exception as e:
+        viol("helpers", f"raised {e!r}")
+
+
 def check_greedy(bag, old_costs, new_costs, rng, pool_modes=()):
     """_greedy_select_agent / _greedy_select_population / _extend_and_trim / _replace_and_trim through a minimal
     concrete optimizer"""
@@ -211,6 +240,7 @@ def work(item, opts):
     bag = {"n": 0, "viol": [], "pops": 0}
     for costs in item.get("vectors", []):
         check_pop(bag, list(costs), rng)
+        check_none_direction(bag, list(costs), rng)
         bag["pops"] += 1
         if len(costs) <= 3:
             for new in itertools.product(ALPHABET, repeat=len(costs)):
@@ -224,6 +254,7 @@ def work(item, opts):
         pool += [pool[-1] + 1e-13, pool[-1] * (1 + 2e-16), pool[-2] - 1e-15]      # near-ties
         costs = [rng.choice(pool) for _ in range(size)]
         check_pop(bag, costs, rng, n_values=sorted({0, 1, size, rng.randint(0, size), rng.randint(0, size)}))
+        check_none_direction(bag, costs, rng)
         bag["pops"] += 1
         check_greedy(bag, costs, [rng.choice(pool) for _ in range(size)], rng,
                      pool_modes=("thread",) if rng.random() < 0.2 else ())
@@ -270,6 +301,7 @@ def replay(prop, data):
     bag = {"n": 0, "viol": [], "pops": 0}
     rng = random.Random(1)
     check_pop(bag, costs, rng)
+    check_none_direction(bag, costs, rng)
     h = len(costs) // 2
     if h:
         check_greedy(bag, costs[:h], costs[h:], rng)
